@@ -269,8 +269,34 @@ def runC03 (t : Tier) : Emit Unit := do
     emit "C03" (outcomesCase mb { parser := .observer } "mutated-parser")
     emit "C03" (outcomesCase mb { parser := .failing, size := 0 } "mutated-parser-failing")
 
+/-- reference for a seekable reader whose Seek always fails, packet size to be detected: every call examines the next
+193 bytes (they are consumed: the reader cannot be put back); a window that starts with a sync byte and holds a second
+one from offset 188 on needs the rewind, which fails with the injected cause; other windows are ordinary detection
+errors; nothing left is the end of the stream -/
+def seekFailOutcomes (bs : Bytes) : Nat → Nat → List String
+  | 0, _ => []
+  | n + 1, pos =>
+    let rem := bs.drop pos
+    if rem.isEmpty then "eof" :: seekFailOutcomes bs n pos
+    else
+      let w := rem.take 193
+      let o := if w.headD 0 != 0x47 then "other" else if (w.drop 188).contains 0x47 then "io" else "other"
+      o :: seekFailOutcomes bs n (pos + w.length)
+
 /-! ### C18 (reader side) -/
 def runC18r (t : Tier) : Emit Unit := do
+  -- the reader's Seek fails (returning -1 or 0 with the error) when auto-detection wants to go back to the start: the
+  -- pending call returns an error wrapping the cause. The model has no failing Seek: `seekFailOutcomes` is the
+  -- reference for both columns of these cases
+  for i in [0:(if t.quick then 2 else 6)] do
+    let m ← liftGen (smallStream i)
+    let bs := m.bytes.take (188 * 6)
+    for rk in ["seekfail-1", "seekfail0"] do
+      for api in [false, true] do
+        let calls := List.replicate (bs.length / 193 + 3) Call.next
+        let exp := ",".intercalate (seekFailOutcomes bs calls.length 0)
+        let c := demuxCase bs { size := 0, kind := .seek, readerName := some rk, packetAPI := api, view := .outcomes } (some calls) (some exp) "seek-fault-in-auto-detection"
+        emit "C18" { c with model := exp }
   for i in [0:(if t.quick then 3 else 12)] do
     let m ← liftGen (smallStream i)
     let bs := m.bytes
@@ -314,6 +340,17 @@ def runC18r (t : Tier) : Emit Unit := do
 
 /-! ### C19 -/
 def runC19 (t : Tier) : Emit Unit := do
+  -- packets whose adaptation field cannot be parsed (private data / extension lengths running past the packet): the
+  -- packet is an error for the caller whatever the skipper would say about it — it is never consulted on half a packet
+  for (afb : Bytes) in ([[183, 0x02, 255], [183, 0x03, 170, 1], [10, 0x01, 200, 0xe0], [183, 0x1a, 0, 0, 0, 0, 0, 0, 0, 0, 0, 0, 0, 0, 190]] : List Bytes) do
+    let m ← liftGen (smallStream 1 true)
+    let ps := m.packets
+    let pid := (ps.headD default).header.pid
+    let bad : Bytes := [0x47, pid / 256 % 32, pid % 256, 0x20] ++ afb ++ List.replicate (184 - afb.length) 0xff
+    let bs := bytesOf (ps.take 2) ++ bad ++ bytesOf (ps.drop 2)
+    for sk in [SkipSpec.pids [pid], .af, .script (List.replicate (ps.length + 1) true), .none] do
+      emit "C19" (demuxCase bs { view := .seq, packetAPI := true, skipper := sk } none none "skipper-and-unparseable-adaptation-field")
+      emit "C19" (demuxCase bs { view := .seq, skipper := sk } none none "skipper-and-unparseable-adaptation-field")
   for i in [0:(if t.quick then 8 else 40)] do
     let m ← liftGen (smallStream i (i % 2 = 0))
     let ps := m.packets
@@ -423,8 +460,13 @@ def runC20sizes (t : Tier) : Emit Unit := do
     let big := expandStream m.packets 16 0xab
     let one := (m.bytes.take 188)
     -- (and the same inputs with auto-detection, which fails on them call after call: Rewind still goes back to offset 0)
+    -- a 188-byte stream whose second packet has lost its sync byte: the first detection fails, a later one succeeds;
+    -- after Rewind the detection has to be made again, from offset 0
+    -- (every packet also carries 0x47 at its offset 5, which is where the second attempt starts: 193 = 188 + 5)
+    let noSync2 : Bytes := (((List.range 6).map fun (k : Nat) => ([0x47, 0x01, 0x00, 0x10 + k] : Bytes) ++ ((List.replicate 184 (k + 1)).set 1 0x47)).flatten).set 188 0
     for (bs, size, tag) in [(big, 204, "rewind-explicit-204"), (one, 188, "rewind-explicit-single-packet"),
-                            (big, 0, "rewind-auto-detection-failing-204"), (one, 0, "rewind-auto-detection-failing-single-packet")] do
+                            (big, 0, "rewind-auto-detection-failing-204"), (one, 0, "rewind-auto-detection-failing-single-packet"),
+                            (noSync2, 0, "rewind-auto-detection-failing-once")] do
       for api in [false, true] do
         let cfg : DemuxCfg := { size := size, packetAPI := api }
         let total := callsToEOF (mkDemux bs cfg) api (bs.length / 188 + 8) 0
